@@ -569,10 +569,26 @@ func c10Corr(ctx *Ctx, n int) error {
 		// the implementation: the fold of mergeSchemas over the member values
 		acc := ms[0].Schema()
 		var implErr error
+		// the operands are schemas of the document (a component is the member of many compositions): merging must not
+		// change them
+		keysOf := func(s openapi3.Schema) string {
+			ks := SortedKeys(s.Properties)
+			return strings.Join(ks, ",") + "|" + strings.Join(append([]string{}, s.Required...), ",")
+		}
+		operands := []openapi3.Schema{acc}
+		before := []string{keysOf(acc)}
 		for j := 1; j < k; j++ {
-			acc, implErr = codegen.VerifMergeOpenapiSchemas(acc, ms[j].Schema(), true)
+			op := ms[j].Schema()
+			operands = append(operands, op)
+			before = append(before, keysOf(op))
+			acc, implErr = codegen.VerifMergeOpenapiSchemas(acc, op, true)
 			if implErr != nil {
 				break
+			}
+		}
+		for j, op := range operands {
+			if after := keysOf(op); after != before[j] {
+				ctx.Res.Violate("merge:operand-modified", fmt.Sprintf("merging changes member %d of the composition itself: properties|required %s => %s (a component that several compositions extend accumulates their members)", j, before[j], after), J{"members": ms})
 			}
 		}
 		var res map[string]interface{}
